@@ -38,7 +38,6 @@ import (
 	"go/ast"
 	"go/token"
 	"os"
-	"sort"
 	"strings"
 )
 
@@ -1554,7 +1553,7 @@ func (g *gx) effect(pl *gplan, lhs []ast.Expr, tok token.Token, n ast.Node, gs [
 				((exists && sameTy(cur, o.typ)) || (t == token.DEFINE && o.typ.k != "untyped")) {
 				taken[name] = true
 				names = append(names, cname(name))
-				g.t.env[name] = o.typ
+				g.t.bind(name, o.typ, o.target.Pos())
 				g.touch(name)
 				if strings.HasPrefix(o.typ.name, "transparent:") {
 					g.transp[name] = true
@@ -1663,7 +1662,7 @@ func (g *gx) envVars() []string {
 			out = append(out, v)
 		}
 	}
-	sort.Strings(out)
+	g.t.sortDecl(out) // fields, fuel, world, then parameters and locals where they are declared
 	return out
 }
 
@@ -1951,7 +1950,7 @@ func (g *gx) explode(id *ast.Ident, sname string, cl *ast.CompositeLit, n ast.No
 		out += "let " + fmt.Sprintf("new_%d_", i) + " := " + o.term + " in\n  "
 	}
 	for i, o := range all {
-		g.t.env[o.name] = o.typ
+		g.t.bind(o.name, o.typ, token.NoPos)
 		g.touch(o.name)
 		out += "let " + cname(o.name) + " := " + fmt.Sprintf("new_%d_", i) + " in\n  "
 	}
@@ -2150,7 +2149,7 @@ func (g *gx) changed(mark int, env map[string]*ty) []string {
 	for v := range set {
 		out = append(out, v)
 	}
-	sort.Strings(out)
+	g.t.sortDecl(out)
 	return out
 }
 
@@ -2283,7 +2282,7 @@ func (g *gx) rangeStmt(st *ast.RangeStmt, list []ast.Stmt, k func() string) stri
 		defs := g.loopDefs
 		g.loopDefs = &scratch
 		if elem != "_" {
-			g.t.env[elem] = et
+			g.t.bind(elem, et, st.Value.Pos())
 		}
 		g.depth++
 		g.stmts(st.Body.List, func() string { return "" })
@@ -2297,7 +2296,7 @@ func (g *gx) rangeStmt(st *ast.RangeStmt, list []ast.Stmt, k func() string) stri
 			g.fail(st, "loop without effect")
 		}
 		if elem != "_" {
-			g.t.env[elem] = et
+			g.t.bind(elem, et, st.Value.Pos())
 		}
 		sb, sc := g.kBreak, g.kCont
 		g.kBreak, g.kCont = nil, nil
@@ -2347,10 +2346,10 @@ func (g *gx) rangeStmt(st *ast.RangeStmt, list []ast.Stmt, k func() string) stri
 	g.kCont = func() string { return call("rest_", "(idx_ + 1)") }
 	pre := ""
 	if elem != "_" {
-		g.t.env[elem] = et
+		g.t.bind(elem, et, st.Value.Pos())
 	}
 	if key != "" {
-		g.t.env[key] = tInt
+		g.t.bind(key, tInt, st.Key.Pos())
 		pre = "let " + cname(key) + " := idx_ in\n  "
 	}
 	body := g.stmts(st.Body.List, g.kCont)
@@ -2596,7 +2595,7 @@ func (s *gsec) translate(key string, mut []string, outPar []int, emit bool) (tex
 				}
 				name := g.recv + "_" + id.Name
 				reserve(name, d)
-				t.env[name] = typ
+				t.bind(name, typ, token.NoPos) // the receiver's fields: declaration order of the struct
 				info.fields = append(info.fields, gfield{id.Name, typ})
 				params = append(params, fmt.Sprintf("(%s : %s)", cname(name), typ.coq()))
 			}
@@ -2609,7 +2608,7 @@ func (s *gsec) translate(key string, mut []string, outPar []int, emit bool) (tex
 		for _, id := range f.Names {
 			typ := g.gotype(f.Type, true)
 			reserve(id.Name, d)
-			t.env[id.Name] = typ
+			t.bind(id.Name, typ, id.Pos())
 			info.params = append(info.params, typ)
 			info.pnames = append(info.pnames, id.Name)
 			params = append(params, fmt.Sprintf("(%s : %s)", cname(id.Name), typ.coq()))
@@ -2645,7 +2644,7 @@ func (s *gsec) translate(key string, mut []string, outPar []int, emit bool) (tex
 				if !ok {
 					g.fail(d, "named result of type %s has no zero value in the model", typ.coq())
 				}
-				t.env[id.Name] = typ
+				t.bind(id.Name, typ, id.Pos())
 				pre += "let " + cname(id.Name) + " := " + z + " in\n  "
 			}
 		}
@@ -2662,10 +2661,10 @@ func (s *gsec) translate(key string, mut []string, outPar []int, emit bool) (tex
 	info.nfuel = nf
 	for i := 1; i <= nf; i++ {
 		name := fmt.Sprintf("fuel_%d", i)
-		t.env[name] = gNat()
+		t.bind(name, gNat(), token.NoPos)
 		params = append(params, fmt.Sprintf("(%s : nat)", name))
 	}
-	t.env["w_"] = gWorld()
+	t.bind("w_", gWorld(), token.NoPos)
 	params = append(params, "(w_ : W)")
 	body := g.stmts(d.Body.List, func() string {
 		if len(info.results) != len(g.named) {
